@@ -224,6 +224,12 @@ func (p *VPeer) readLoop() {
 // awaited at the receiving end.
 func (v *VLoop) Barrier() {
 	for _, p := range v.Peers {
+		if p.Pe.Closed && !p.Gone {
+			// the client closed this connection: what it had written before is still on its way;
+			// wait for the end of the stream so that those frames are counted with this event
+			v.awaitEOF(p)
+			continue
+		}
 		if p.Gone || p.Pe.Closed {
 			continue
 		}
@@ -234,17 +240,36 @@ func (v *VLoop) Barrier() {
 			continue
 		}
 		p.Pe.SendMessage(peerprotocol.PortMessage{Port: 0xBEEF})
-		deadline := time.Now().Add(time.Second)
-		for time.Now().Before(deadline) {
+		// the deadline only matters when the client's writer is stuck; it is generous because a loaded
+		// machine can take long to schedule the writer and reader goroutines
+		deadline := time.Now().Add(15 * time.Second)
+		ok := false
+		for !ok && time.Now().Before(deadline) {
 			p.mu.Lock()
-			ok := p.markers > n0 || p.closed
+			ok = p.markers > n0 || p.closed
 			p.mu.Unlock()
-			if ok {
-				break
+			if !ok {
+				time.Sleep(50 * time.Microsecond)
 			}
-			time.Sleep(50 * time.Microsecond)
+		}
+		if !ok {
+			v.BarrierTimeouts++
 		}
 	}
+}
+
+func (v *VLoop) awaitEOF(p *VPeer) {
+	deadline := time.Now().Add(15 * time.Second)
+	for time.Now().Before(deadline) {
+		p.mu.Lock()
+		cl := p.closed
+		p.mu.Unlock()
+		if cl {
+			return
+		}
+		time.Sleep(50 * time.Microsecond)
+	}
+	v.BarrierTimeouts++
 }
 
 // BarrierPumping is Barrier for a seeding torrent: while the markers travel, upload notifications
@@ -257,6 +282,10 @@ func (v *VLoop) BarrierPumping() (handled int) {
 	}
 	var ws []w
 	for _, p := range v.Peers {
+		if p.Pe.Closed && !p.Gone {
+			v.awaitEOF(p)
+			continue
+		}
 		if p.Gone || p.Pe.Closed {
 			continue
 		}
@@ -269,7 +298,7 @@ func (v *VLoop) BarrierPumping() (handled int) {
 		p.Pe.SendMessage(peerprotocol.PortMessage{Port: 0xBEEF})
 		ws = append(ws, w{p, n0})
 	}
-	deadline := time.Now().Add(2 * time.Second)
+	deadline := time.Now().Add(15 * time.Second)
 	for time.Now().Before(deadline) {
 		done := true
 		for _, x := range ws {
@@ -287,6 +316,7 @@ func (v *VLoop) BarrierPumping() (handled int) {
 			handled++
 		}
 	}
+	v.BarrierTimeouts++
 	return
 }
 
@@ -323,6 +353,7 @@ type VLoop struct {
 	Truth []byte // ground-truth content (concatenated files) for judging received blocks
 	PL    int64
 	TruthInfo []byte // the info dictionary behind a magnet link
+	BarrierTimeouts int // barriers that gave up waiting (reported in the case note)
 }
 
 type VLoopOpts struct {
@@ -549,43 +580,43 @@ func (v *VLoop) Pump(d time.Duration) (ev int) {
 	defer timer.Stop()
 	select {
 	case p := <-t.allocatorProgressC:
-		t.bytesAllocated = p.AllocatedSize
+		t.vCaseAllocatorProgressC(p)
 		return EvProgress
 	case al := <-t.allocatorResultC:
-		v.guard(func() { t.handleAllocationDone(al) })
+		v.guard(func() { t.vCaseAllocatorResultC(al) })
 		return EvAllocDone
 	case p := <-t.verifierProgressC:
-		t.checkedPieces = p.Checked
+		t.vCaseVerifierProgressC(p)
 		return EvProgress
 	case ve := <-t.verifierResultC:
-		v.guard(func() { t.handleVerificationDone(ve) })
+		v.guard(func() { t.vCaseVerifierResultC(ve) })
 		return EvVerifyDone
 	case data := <-t.ramNotifyC:
-		v.guard(func() { t.startSinglePieceDownloader(data) })
+		v.guard(func() { t.vCaseRamNotifyC(data) })
 		return EvRamNotify
 	case res := <-t.webseedPieceResultC.ReceiveC():
-		v.guard(func() { t.handleWebseedPieceResult(res) })
+		v.guard(func() { t.vCaseWebseedPieceResultC(res) })
 		return EvWebseedResult
 	case src := <-t.webseedRetryC:
-		v.guard(func() { t.startPieceDownloaderForWebseed(src) })
+		v.guard(func() { t.vCaseWebseedRetryC(src) })
 		return EvWebseedRetry
 	case pw := <-t.pieceWriterResultC:
-		v.guard(func() { t.handlePieceWriteDone(pw) })
+		v.guard(func() { t.vCasePieceWriterResultC(pw) })
 		return EvWriteDone
 	case pe := <-t.peerSnubbedC:
-		v.guard(func() { t.handlePeerSnubbed(pe) })
+		v.guard(func() { t.vCasePeerSnubbedC(pe) })
 		return EvSnubbed
 	case pe := <-t.peerDisconnectedC:
-		v.guard(func() { t.closePeer(pe) })
+		v.guard(func() { t.vCasePeerDisconnectedC(pe) })
 		return EvDisconnected
 	case pm := <-t.pieceMessagesC.ReceiveC():
-		v.guard(func() { t.handlePieceMessage(pm) })
+		v.guard(func() { t.vCasePieceMessagesC(pm) })
 		return EvPieceMsg
 	case pm := <-t.messages:
-		v.guard(func() { t.handlePeerMessage(pm) })
+		v.guard(func() { t.vCaseMessages(pm) })
 		return EvPeerMsg
 	case <-t.announcersStoppedC:
-		v.guard(func() { t.handleStopped() })
+		v.guard(func() { t.vCaseAnnouncersStoppedC() })
 		return EvAnnouncersStopped
 	case <-t.addrsFromTrackers:
 		return EvProgress
@@ -670,33 +701,33 @@ func (v *VLoop) PumpEx(d time.Duration, cls int) (e VEvent) {
 again:
 	select {
 	case p := <-allocP:
-		t.bytesAllocated = p.AllocatedSize
+		t.vCaseAllocatorProgressC(p)
 		goto again
 	case p := <-verP:
-		t.checkedPieces = p.Checked
+		t.vCaseVerifierProgressC(p)
 		goto again
 	case al := <-allocC:
 		e.Code = EvAllocDone
-		v.guard(func() { t.handleAllocationDone(al) })
+		v.guard(func() { t.vCaseAllocatorResultC(al) })
 	case ve := <-verC:
 		e.Code = EvVerifyDone
-		v.guard(func() { t.handleVerificationDone(ve) })
+		v.guard(func() { t.vCaseVerifierResultC(ve) })
 	case <-stoppedC:
 		e.Code = EvAnnouncersStopped
-		v.guard(func() { t.handleStopped() })
+		v.guard(func() { t.vCaseAnnouncersStoppedC() })
 	case pw := <-writeC:
 		e.Code, e.Index, e.HashOK, e.WErr = EvWriteDone, pw.Piece.Index, pw.HashOK, pw.Error != nil
 		if pe, ok := pw.Source.(*peer.Peer); ok {
 			e.Peer = v.peerIndex(pe)
 		}
-		v.guard(func() { t.handlePieceWriteDone(pw) })
+		v.guard(func() { t.vCasePieceWriterResultC(pw) })
 	case pm := <-pieceC:
 		e.Code, e.Peer, e.MsgID = EvPieceMsg, v.peerIndex(pm.Peer), 7
 		e.Index, e.Begin, e.Len = pm.Piece.Index, pm.Piece.Begin, uint32(len(pm.Piece.Buffer.Data))
 		lo := int64(pm.Piece.Index)*v.PL + int64(pm.Piece.Begin)
 		hi := lo + int64(e.Len)
 		e.Good = hi <= int64(len(v.Truth)) && bytes.Equal(pm.Piece.Buffer.Data, v.Truth[lo:hi])
-		v.guard(func() { t.handlePieceMessage(pm) })
+		v.guard(func() { t.vCasePieceMessagesC(pm) })
 	case pm := <-msgC:
 		e.Code, e.Peer = EvPeerMsg, v.peerIndex(pm.Peer)
 		switch m := pm.Message.(type) {
@@ -747,16 +778,16 @@ again:
 			hi := lo + int64(len(m.Data))
 			e.Good = hi <= int64(len(v.TruthInfo)) && bytes.Equal(m.Data, v.TruthInfo[lo:hi])
 		}
-		v.guard(func() { t.handlePeerMessage(pm) })
+		v.guard(func() { t.vCaseMessages(pm) })
 	case pe := <-discC:
 		e.Code, e.Peer = EvDisconnected, v.peerIndex(pe)
-		v.guard(func() { t.closePeer(pe) })
+		v.guard(func() { t.vCasePeerDisconnectedC(pe) })
 	case pe := <-snubC:
 		e.Code, e.Peer = EvSnubbed, v.peerIndex(pe)
-		v.guard(func() { t.handlePeerSnubbed(pe) })
+		v.guard(func() { t.vCasePeerSnubbedC(pe) })
 	case pe := <-ramC:
 		e.Code, e.Peer = EvRamNotify, v.peerIndex(pe)
-		v.guard(func() { t.startSinglePieceDownloader(pe) })
+		v.guard(func() { t.vCaseRamNotifyC(pe) })
 	case <-timer.C:
 		e.Code = EvNone
 	}
@@ -794,16 +825,16 @@ func (v *VLoop) Settle(quiet time.Duration) (evs []int) {
 }
 
 // Start issues the start command (as the loop would on startCommandC).
-func (v *VLoop) Start() { v.guard(func() { v.T.start() }) }
+func (v *VLoop) Start() { v.guard(func() { v.T.vCaseStartCommandC() }) }
 
 // Stop issues the stop command.
-func (v *VLoop) Stop() { v.guard(func() { v.T.stop(nil) }) }
+func (v *VLoop) Stop() { v.guard(func() { v.T.vCaseStopCommandC() }) }
 
 // PersistNow runs the periodic resume write of the session (the ResumeWriteInterval ticker).
 func (v *VLoop) PersistNow() { v.S.updateStats() }
 
 // Verify issues the verify command.
-func (v *VLoop) Verify() { v.guard(func() { v.T.handleVerifyCommand() }) }
+func (v *VLoop) Verify() { v.guard(func() { v.T.vCaseVerifyCommandC() }) }
 
 // PersistedBitfield reads the bitfield stored in the resume database (nil when there is none).
 func (v *VLoop) PersistedBitfield(np int) []bool {
@@ -819,7 +850,7 @@ func (v *VLoop) PersistedBitfield(np int) []bool {
 }
 
 // Snub delivers a snub-timer event for the peer.
-func (v *VLoop) Snub(p *VPeer) { v.guard(func() { v.T.handlePeerSnubbed(p.Pe) }) }
+func (v *VLoop) Snub(p *VPeer) { v.guard(func() { v.T.vCasePeerSnubbedC(p.Pe) }) }
 
 // AddPeer connects a scripted peer, bypassing the handshake (the handshake is covered elsewhere).
 func (v *VLoop) AddPeer(fast, ext bool, source peersource.Source) (*VPeer, error) {
